@@ -20,6 +20,8 @@ SPEC = {
                        ("G(4) x A3", [["--n", 4, "--alpha", "A3"]]), ("G(5) x A3", [["--n", 5, "--alpha", "A3"]]),
                        ("G(4) x A3 plus one more component = a single edge weighing 2^60", [["--n", 4, "--alpha", "A3", "--plus-heavy-k2"]]),
                        ("weights with 26 significant bits: G(4) x B3, G(5) x B2", [["--n", 4, "--alpha", "B3"], ["--n", 5, "--alpha", "B2"]]),
+                       ("pairwise distinct weights: G(4) x PM, G(5) with at most 6 edges x PM (all assignments of 1..m: distinct edges, tied paths) and x PM2 (no ties at all)",
+                        [["--n", 4, "--alpha", "PM"], ["--n", 5, "--alpha", "PM", "--max-m", 6], ["--n", 5, "--alpha", "PM2", "--max-m", 6]]),
                        ("reversed / alternating edge orientation: G(4) x A3, G(5) x A2", [["--n", 4, "--alpha", "A3", "--orient", 1], ["--n", 5, "--alpha", "A2", "--orient", 1], ["--n", 5, "--alpha", "A2", "--orient", 2]]),
                        ("blob grammar K=3,T=2 x patterns M2, M3", [["--grammar", "blobs:3:2", "--alpha", "M2"], ["--grammar", "blobs:3:2", "--alpha", "M3"]]),
                        ("edge insertion order reversed / interleaved: G(4) x A3, G(5) x A2", [["--n", 4, "--alpha", "A3", "--eorder", o] for o in (1, 2)] + [["--n", 5, "--alpha", "A2", "--eorder", o] for o in (1, 2)]),
@@ -47,6 +49,8 @@ SPEC = {
                 quick=[("G(0..4) x A3", [["--n", n, "--alpha", "A3"] for n in range(0, 5)]), ("G(5) x A2", [["--n", 5, "--alpha", "A2"]]),
                        ("G(4) x A3 plus one more component = a single edge weighing 2^60", [["--n", 4, "--alpha", "A3", "--plus-heavy-k2"]]),
                        ("weights with 26 significant bits: G(4) x B3, G(5) x B2", [["--n", 4, "--alpha", "B3"], ["--n", 5, "--alpha", "B2"]]),
+                       ("pairwise distinct weights: G(4) x PM, G(5) with at most 6 edges x PM (all assignments of 1..m: distinct edges, tied paths) and x PM2 (no ties at all)",
+                        [["--n", 4, "--alpha", "PM"], ["--n", 5, "--alpha", "PM", "--max-m", 6], ["--n", 5, "--alpha", "PM2", "--max-m", 6]]),
                        ("G(5) x U", [["--n", 5, "--alpha", "U"]]), ("G(5) x A3", [["--n", 5, "--alpha", "A3"]]),
                        ("reversed / alternating edge orientation: G(4) x A3, G(5) x A2", [["--n", 4, "--alpha", "A3", "--orient", 1], ["--n", 5, "--alpha", "A2", "--orient", 1], ["--n", 5, "--alpha", "A2", "--orient", 2]]),
                        ("blob grammar K=3,T=2 x patterns M2, M3", [["--grammar", "blobs:3:2", "--alpha", "M2"], ["--grammar", "blobs:3:2", "--alpha", "M3"]]),
